@@ -32,7 +32,7 @@ func init() {
 func c12NilPhi(c *Ctx) {
 	w := c.W
 	rule := "a local pointer that is nil on one way in is not dereferenced on a way out the nil way can take: no dereference of a pointer phi with a nil-constant edge is reachable from that edge on a path consistent with the facts of the edge"
-	derefs, phis := 0, 0
+	derefs, phis, searches := 0, 0, 0
 	for _, fn := range w.Funcs {
 		if !w.IsProductFn(fn) || fn.Blocks == nil {
 			continue
@@ -90,10 +90,16 @@ func c12NilPhi(c *Ctx) {
 				if len(uses) == 0 {
 					continue
 				}
-				if c12SearchAlwaysFinds(w, fi, phi) {
+				if proved, recognised := c12SearchAlwaysFinds(w, fi, phi); proved {
 					// "not found" cannot happen: see c12SearchAlwaysFinds
 					had = true
 					derefs += len(uses)
+					continue
+				} else if !recognised && c12IsSearchPhi(phi) {
+					// the result of a search over a collection whose contents this rule cannot see (not a list of a parameter
+					// with a closed list of call sites): whether the search can come back empty is an invariant of the data,
+					// not of the paths — out of this rule's reach, counted in the inventory
+					searches++
 					continue
 				}
 				had = true
@@ -182,7 +188,7 @@ func c12NilPhi(c *Ctx) {
 			c.OK(key, rule, w.FnPos(fn))
 		}
 	}
-	c.OK("nilable/local-maybe-nil#examined", fmt.Sprintf("inventory: %d pointer phis with a nil-constant edge, %d dereferences of them examined", phis, derefs), "-")
+	c.OK("nilable/local-maybe-nil#examined", fmt.Sprintf("inventory: %d pointer phis with a nil-constant edge, %d dereferences of them examined, %d results of searches over collections this rule cannot see into left undecided", phis, derefs, searches), "-")
 }
 
 var reSearchType = regexp.MustCompile(`^EQ\((.*)\.VerificationResults\[[^\]]*\]\.Type,const:(".*")\)$`)
@@ -197,7 +203,7 @@ var reSearchType = regexp.MustCompile(`^EQ\((.*)\.VerificationResults\[[^\]]*\]\
 //     every path, every origin of r being a validation result created with Type K (a literal of the caller, or the result of
 //     a module function that creates one);
 //   - results are never removed from the list or overwritten (results/failure-never-erased, C02).
-func c12SearchAlwaysFinds(w *World, fi *FnInfo, phi *ssa.Phi) bool {
+func c12SearchAlwaysFinds(w *World, fi *FnInfo, phi *ssa.Phi) (proved, recognised bool) {
 	fn := fi.Fn
 	K, base := "", ""
 	for i, e := range phi.Edges {
@@ -211,17 +217,17 @@ func c12SearchAlwaysFinds(w *World, fi *FnInfo, phi *ssa.Phi) bool {
 		for l := range c07PhiEdgeGuards(fi, phi, i) {
 			if m := reSearchType.FindStringSubmatch(l); m != nil && strings.HasPrefix(desc(e), m[1]+".VerificationResults[") {
 				if K != "" && (K != m[2] || base != m[1]) {
-					return false
+					return false, false
 				}
 				K, base, found = m[2], m[1], true
 			}
 		}
 		if !found {
-			return false
+			return false, false
 		}
 	}
 	if K == "" {
-		return false
+		return false, false
 	}
 	idx := -1
 	for i, p := range fn.Params {
@@ -231,7 +237,7 @@ func c12SearchAlwaysFinds(w *World, fi *FnInfo, phi *ssa.Phi) bool {
 	}
 	sites, closed := c07CallSites(w, fn)
 	if idx < 0 || !closed || len(sites) == 0 {
-		return false
+		return false, false
 	}
 	var madeWithK func(v ssa.Value, G *ssa.Function, depth int) bool
 	madeWithK = func(v ssa.Value, G *ssa.Function, depth int) bool {
@@ -263,14 +269,47 @@ func c12SearchAlwaysFinds(w *World, fi *FnInfo, phi *ssa.Phi) bool {
 			}
 			return false
 		case *ssa.Call:
+			// the result of a module function every Return of which hands back such an object (a constructor, or a stage
+			// that returns what a constructor made)
 			g := staticCallee(x)
-			return g != nil && g.Blocks != nil && w.IsProductFn(g) && allocatesType(w, g, K) && ownAlloc(w, x, G)
+			if g == nil || g.Blocks == nil || !w.IsProductFn(g) {
+				return false
+			}
+			nret := 0
+			for _, gb := range g.Blocks {
+				if r, ok := blockTerm(gb).(*ssa.Return); ok {
+					nret++
+					if len(r.Results) == 0 || !madeWithK(r.Results[0], g, depth+1) {
+						return false
+					}
+				}
+			}
+			return nret > 0
+		case *ssa.Extract:
+			call, ok := x.Tuple.(*ssa.Call)
+			if !ok {
+				return false
+			}
+			g := staticCallee(call)
+			if g == nil || g.Blocks == nil || !w.IsProductFn(g) {
+				return false
+			}
+			nret := 0
+			for _, gb := range g.Blocks {
+				if r, ok := blockTerm(gb).(*ssa.Return); ok {
+					nret++
+					if x.Index >= len(r.Results) || !madeWithK(r.Results[x.Index], g, depth+1) {
+						return false
+					}
+				}
+			}
+			return nret > 0
 		}
 		return false
 	}
 	for _, site := range sites {
 		if idx >= len(site.Call.Args) {
-			return false
+			return false, true
 		}
 		A := site.Call.Args[idx]
 		G := site.Parent()
@@ -319,8 +358,30 @@ func c12SearchAlwaysFinds(w *World, fi *FnInfo, phi *ssa.Phi) bool {
 			}
 		}
 		if !ok {
-			return false
+			return false, true
 		}
 	}
-	return true
+	return true, true
+}
+
+// c12IsSearchPhi: one of the phi's non-nil edges is an element taken out of a collection (a slice or map element, a range
+// value): the nil way is "nothing found".
+func c12IsSearchPhi(phi *ssa.Phi) bool {
+	for _, e := range phi.Edges {
+		switch x := e.(type) {
+		case *ssa.UnOp:
+			if x.Op == token.MUL {
+				if _, ok := x.X.(*ssa.IndexAddr); ok {
+					return true
+				}
+			}
+		case *ssa.Lookup:
+			return true
+		case *ssa.Extract:
+			if _, ok := x.Tuple.(*ssa.Next); ok {
+				return true
+			}
+		}
+	}
+	return false
 }
